@@ -275,3 +275,34 @@ func shares(a, b Form) bool {
 	}
 	return false
 }
+
+// Tighten strengthens F >= 0 using integrality: when every symbol coefficient is a multiple of g > 1,
+// c + g·S >= 0 is equivalent to floor(c/g) + S >= 0.
+func Tighten(f Form) Form {
+	if len(f.T) == 0 {
+		return f
+	}
+	g := int64(0)
+	for _, a := range f.T {
+		if a < 0 {
+			a = -a
+		}
+		for b := a; b != 0; {
+			g, b = b, g%b
+		}
+	}
+	if g <= 1 {
+		return f
+	}
+	r := Form{T: make(map[string]int64, len(f.T))}
+	for s, a := range f.T {
+		r.T[s] = a / g
+	}
+	// floor division
+	c := f.C / g
+	if f.C%g != 0 && f.C < 0 {
+		c--
+	}
+	r.C = c
+	return r
+}
